@@ -774,6 +774,24 @@ def run(prog, rep, tier):
     if n514 == 0:
         raise CheckerError("R5.14: no comparison with GZ_MAX_SZ found in BlockReader::new")
 
+    # ------------------------------------------------------------ R5.15 the unpacked temporary file is complete before it is handed on
+    # decompress_to_ntf writes the decoded bytes through a BufWriter and returns the *path*; the journal
+    # and evtx readers open it by path.  BufWriter's Drop discards write errors, so a writer that merely
+    # goes out of scope can leave a truncated file behind a success result (defect F46).  Every Ok
+    # return reachable from a BufWriter::<File>::new passes through a flush (or into_inner) of that
+    # writer whose result is inspected.
+    import flushed
+    R515 = rep.rule("R5.15", "a buffered writer over the temporary file is flushed, and the result looked at, before success is reported")
+    fl515 = flushed.check(prog)
+    for n515_, r_ in enumerate(fl515):
+        rep.examined(R515, "%s|BufWriter#%d" % (r_["fn"], n515_), sample=r_)
+        if r_["ok_returns_without_checked_flush"]:
+            rep.violation(R515, "%s|%s|unflushed-ok" % (r_["fn"], "BufWriter<File>"), "%s: the BufWriter created at line %s can reach the function's Ok result (line %s) without a flush whose result is checked (%d flush calls, %d checked); "
+                          "the last buffered bytes are then written by Drop, which discards errors - with a full disk or a file size limit the reader is handed a truncated temporary file and records are lost without any message"
+                          % (r_["fn"], r_["line"], r_["ok_returns_without_checked_flush"][0], r_["flush_calls"], r_["checked_flush_calls"]))
+    if len(fl515) < 2:
+        raise CheckerError("R5.15: %d buffered file writers found (decompress_to_ntf has one per container)" % len(fl515))
+
     return rep.finish(
         "Static necessary-condition check: every decoder read() call site of the library honours short reads (count bounds the consumed slice, "
         "or a fill loop, or the buffer is not consumed); BlockReader::read_block dispatches Text and FixedStruct to the same, distinct reader per "
